@@ -76,7 +76,7 @@ type mtbBehaviour struct {
 type mtbCases struct {
 	Behaviours []mtbBehaviour `json:"behaviours"`
 	R1CS       bool           `json:"r1cs"`
-	Only       string         `json:"only"`  // "insertion" | "deletion" | "" : which batches to judge
+	Only       string         `json:"only"` // "insertion" | "deletion" | "" : which batches to judge
 	LastOnly   bool           `json:"lastOnly"`
 }
 
@@ -135,9 +135,9 @@ func evilInvZeroOne(_ *big.Int, inputs []*big.Int, results []*big.Int) error {
 
 func dishonestTables() map[string][]backend.ProverOption {
 	return map[string][]backend.ProverOption{
-		"truncating-bits":        {replaceHint(nBitsHint, evilNBits)},
-		"iszero-inverse-0":       {replaceHint(hint.InvZero, evilInvZeroAlwaysZero), replaceHint(nBitsHint, evilNBits)},
-		"iszero-inverse-1":       {replaceHint(hint.InvZero, evilInvZeroOne)},
+		"truncating-bits":  {replaceHint(nBitsHint, evilNBits)},
+		"iszero-inverse-0": {replaceHint(hint.InvZero, evilInvZeroAlwaysZero), replaceHint(nBitsHint, evilNBits)},
+		"iszero-inverse-1": {replaceHint(hint.InvZero, evilInvZeroOne)},
 	}
 }
 
